@@ -12,7 +12,9 @@ EXPLANATION = (
     "representation invariant. add_row of the other seven tables (edge, site, mutation, migration, individual, "
     "population, provenance) is proved against the same list-of-rows view from one contract template over each "
     "table's column list: the new view is the old view plus exactly the given row (fixed columns, ragged offsets "
-    "and bytes), or on an error return every row, length and the representation invariant are unchanged. The "
+    "and bytes), or on an error return every row, length and the representation invariant are unchanged; "
+    "truncate(n) keeps exactly the first n rows or rejects n > len, clear empties, get_row returns row idx's "
+    "fields and slices or rejects exactly the out-of-range indexes, for each of those tables. The "
     "bounds/monotonicity axioms about the ghost functions rank/newoff and the transitive form of offset "
     "monotonicity are proved by induction (base and step discharged) in lemmas/induction.py. The remaining row "
     "operations of those tables, and the Python facade / immutability of TreeSequence, are covered only by the "
@@ -39,12 +41,11 @@ C_FUNCS = [
     ("population", ["expand_main_columns", "expand_metadata", "add_row_internal", "add_row"]),
     ("provenance", ["expand_main_columns", "expand_timestamp", "expand_record", "add_row_internal", "add_row"]),
     ("individual", ["expand_main_columns", "expand_location", "expand_parents", "expand_metadata", "add_row_internal", "add_row"]),
-) for f in fs]
+) for f in fs + ["truncate", "clear", "get_row_unsafe", "get_row"]]
 LEMMAS = ["lemmas.induction:offsets_transitive", "lemmas.induction:rank_bounds_and_monotone",
           "lemmas.induction:newoff_bounds_and_monotone"]
 BOUNDED = [{"name": "list_model", "module": "standins.c13_listmodel", "timeout": 900}]
-UNVERIFIED = ["truncate/clear/get_row of the edge/site/mutation/migration/individual/population/provenance tables",
-              "edge tables created with TSK_TABLE_NO_METADATA (add_row contract covers the default variant)",
+UNVERIFIED = [              "edge tables created with TSK_TABLE_NO_METADATA (add_row contract covers the default variant)",
               "tsk_*_table_update_row, _extend, _append_columns, _set_columns, _takeset_columns, _keep_rows, _copy",
               "python/tskit/tables.py facade", "TreeSequence immutability (numpy flags in _tskitmodule.c)"]
 ASSUMPTIONS = [
